@@ -134,7 +134,8 @@ def main():
     with ThreadPoolExecutor(max_workers=jobs) as ex:
         for res in ex.map(lambda mn: one(mn[0], mn[1], with_tests), work):
             results.append(res)
-            print('%-36s %-12s %s' % (res['id'], res['status'], {p: (c['exit'], c['rules']) for p, c in res['checks'].items()}))
+            print('%-36s %-12s %s%s' % (res['id'], res['status'], {p: (c['exit'], c['rules']) for p, c in res['checks'].items()},
+                                        ('  tests: ' + str(res.get('pinned_tests'))) if with_tests else ''))
             if res['status'] not in ('ok',):
                 for p, c in res['checks'].items():
                     if c.get('stderr'):
